@@ -52,7 +52,7 @@ class SpartanProtocol(BaseGopherProtocol):
             return
         except IOError as e:
             GopherExceptions.log(e, self, None)
-            self.write_status(5, e.args[1])
+            self.write_status(5, e.strerror or str(e))
             return
 
         if handler.isdir():
